@@ -54,6 +54,7 @@ type sampleIn struct {
 }
 
 type blockIn struct {
+	Group   int        `json:"group,omitempty"` // external label set (compaction group)
 	MinT    int64      `json:"min_t"`
 	MaxT    int64      `json:"max_t"`
 	Samples []sampleIn `json:"samples"`
@@ -138,7 +139,7 @@ func makeBlock(ctx context.Context, dir string, b blockIn) (ulid.ULID, error) {
 	id = ids[0]
 	bdir := filepath.Join(dir, id.String())
 	if _, err := metadata.InjectThanos(log.NewNopLogger(), bdir, metadata.Thanos{
-		Labels: map[string]string{"cluster": "c"}, Downsample: metadata.ThanosDownsample{Resolution: 0}, Source: metadata.TestSource,
+		Labels: map[string]string{"cluster": fmt.Sprintf("c%d", b.Group)}, Downsample: metadata.ThanosDownsample{Resolution: 0}, Source: metadata.TestSource,
 	}, nil); err != nil {
 		return id, err
 	}
@@ -583,6 +584,13 @@ func gen(r *rand.Rand, tier string, n int) []any {
 				out = append(out, input{Vertical: vertical, Blocks: blocks, Crashes: []int{k}})
 			}
 			continue
+		}
+		if r.Intn(4) == 0 {
+			// a second stream (other external labels): compacted independently
+			for _, b := range genBlocks(r, false, 4) {
+				b.Group = 1
+				blocks = append(blocks, b)
+			}
 		}
 		in := input{Vertical: vertical, Blocks: blocks}
 		switch r.Intn(8) {
